@@ -65,15 +65,15 @@ func iterationCounts(h *ssa.BasicBlock, ev func(ssa.Instruction) int) map[int][]
 		return res
 	}
 	type st struct {
-		b *ssa.BasicBlock
-		n int
+		nd walkNode
+		n  int
 	}
 	seen := map[st]bool{}
 	type item struct {
 		s    st
 		path []*ssa.BasicBlock
 	}
-	work := []item{{st{h, 0}, []*ssa.BasicBlock{h}}}
+	work := []item{{st{walkNode{b: h}, 0}, []*ssa.BasicBlock{h}}}
 	for len(work) > 0 {
 		it := work[len(work)-1]
 		work = work[:len(work)-1]
@@ -82,7 +82,8 @@ func iterationCounts(h *ssa.BasicBlock, ev func(ssa.Instruction) int) map[int][]
 		}
 		seen[it.s] = true
 		n := it.s.n
-		for _, in := range it.s.b.Instrs {
+		blk := it.s.nd.b
+		for _, in := range blk.Instrs {
 			n += ev(in)
 		}
 		if n > 3 {
@@ -91,7 +92,10 @@ func iterationCounts(h *ssa.BasicBlock, ev func(ssa.Instruction) int) map[int][]
 		if n < -3 {
 			n = -3
 		}
-		for _, s := range it.s.b.Succs {
+		for i, s := range blk.Succs {
+			if !it.s.nd.feasibleEdge(i) {
+				continue
+			}
 			if s == h {
 				if _, ok := res[n]; !ok {
 					res[n] = append(append([]*ssa.BasicBlock{}, it.path...), h)
@@ -102,7 +106,7 @@ func iterationCounts(h *ssa.BasicBlock, ev func(ssa.Instruction) int) map[int][]
 				continue
 			}
 			np := append(append([]*ssa.BasicBlock{}, it.path...), s)
-			work = append(work, item{st{s, n}, np})
+			work = append(work, item{st{it.s.nd.step(i), n}, np})
 		}
 	}
 	return res
